@@ -35,13 +35,19 @@
    statement of (5) holds for every history (C16_dline_exactly_once), and in the quiescent state the line is empty and both
    frame count bits agree (C16_dline_quiescent).  Without the assumption the statement is false for the procedure itself
    (C16_dline_needs_timing: the acknowledgement of a premature repetition is taken for the confirmation of the next message).
+   (9) THE SLAVE WITH ITS CLASS-QUEUE RINGS (Link/LinkSecQ.v): the handler of the unbalanced secondary transcribed with the literal
+   rings of cs101_queue.c in place of the lists (a class request dequeues, ACD = not isEmpty(class 1 ring)) is, for every frame
+   and every ring state satisfying the ring invariant, the list version on the abstraction of the rings (C16_slave_rings_handler,
+   _run); an ASDU handed over goes into the FIFO of the configured capacity that displaces its oldest entry (C16_slave_rings_enqueue);
+   for every history of frames and hand-overs the ring-backed station produces the list station's output (C16_slave_rings_history).
+   su_run_r is the function the composed line executes against the real CS101 slaves on every run.
    NOT proved: more than one frame per direction in transit and answers arriving after the acknowledgement timeout (excluded by
    the timing assumption), delayed frames on the unbalanced line, the broadcast service of the unbalanced master, and the composition with the
    ring of the class queues (cs101_queue.c; the slave application here is the FIFO stub of the harness).  Those stay with the
    differential execution of the composed model against the real CS101_Master / CS101_Slave objects on the simulated
    line, and with the exactly-once oracle, on every run. *)
 From Coq Require Import ZArith List Bool.
-From L60870 Require Import Link.Abp Link.AbpProofs Link.Cs101Queue Link.Cs101QueueProofs Link.Ft12 Link.LinkSec Link.LinkPrim Link.Ft12Proofs Link.LinkProofs Link.LinkOnce Link.LinkLine Link.LinkLineU Link.LinkLineM Link.LinkLineD.
+From L60870 Require Import Link.Abp Link.AbpProofs Link.Cs101Queue Link.Cs101QueueProofs Link.Ft12 Link.LinkSec Link.LinkPrim Link.Ft12Proofs Link.LinkProofs Link.LinkOnce Link.LinkLine Link.LinkLineU Link.LinkLineM Link.LinkLineD Link.LinkSecQ.
 Import ListNotations.
 Local Open Scope Z_scope.
 
@@ -244,6 +250,38 @@ Theorem C16_dline_needs_timing :
                [DEnq exd_m1; DEnq exd_m2; DRun 10; DToB; DRun 250; DToA 260; DToB; DRun 270; DLoseAB; DToA 280] exd_st in
   dfail st' = false /\ dtim st' = true /\ pb_ps (dp st') = PLL_AVAILABLE /\ dT st' = [exd_m1; exd_m2] /\ dD st' = [exd_m1].
 Proof. exact dline_needs_timing. Qed.
+
+(* the unbalanced secondary with the literal class-queue rings (Link/LinkSecQ.v).  QI x: both rings satisfy the invariant of
+   Cs101QueueProofs.v; suq_abs x: the station of Link/LinkSec.v whose two lists are the rings' contents, oldest first. *)
+Theorem C16_slave_rings_handler : forall fi_ c x fc bc fcb fcv msg uds udl, QI x ->
+  su_handle fi_ c (suq_abs x) fc bc fcb fcv msg uds udl =
+    (suq_abs (fst (su_handle_r fi_ c x fc bc fcb fcv msg uds udl)), snd (su_handle_r fi_ c x fc bc fcb fcv msg uds udl)) /\
+  QI (fst (su_handle_r fi_ c x fc bc fcb fcv msg uds udl)).
+Proof. exact su_handle_r_refines. Qed.
+
+Theorem C16_slave_rings_run : forall v c now x rx, QI x ->
+  su_run v c now (suq_abs x) rx =
+    (suq_abs (fst (fst (su_run_r v c now x rx))), snd (fst (su_run_r v c now x rx)), snd (su_run_r v c now x rx)) /\
+  QI (fst (fst (su_run_r v c now x rx))).
+Proof. exact su_run_r_refines. Qed.
+
+Theorem C16_slave_rings_enqueue : forall x class1 d, QI x ->
+  QI (suq_enqueue x class1 d) /\
+  suq_abs (suq_enqueue x class1 d) =
+    (if class1 then su_with_q (suq_abs x) (fifo_enqueue (q_size (sq_1 x)) (cq_abs (sq_1 x)) d) (cq_abs (sq_2 x))
+     else su_with_q (suq_abs x) (cq_abs (sq_1 x)) (fifo_enqueue (q_size (sq_2 x)) (cq_abs (sq_2 x)) d)).
+Proof. exact suq_enqueue_refines. Qed.
+
+Theorem C16_slave_rings_history : forall fi_ c es x, QI x ->
+  qrun_l fi_ c (q_size (sq_1 x)) (q_size (sq_2 x)) (suq_abs x) es = (suq_abs (fst (qrun_r fi_ c x es)), snd (qrun_r fi_ c x es)) /\
+  QI (fst (qrun_r fi_ c x es)).
+Proof. exact suq_history. Qed.
+
+Example C16_slave_rings_example :
+  QI exq_x /\
+  map (fun o => match o with OTx f => if nth 0 f 0 =? 104 then nth 4 f 0 else nth 1 f 0 | _ => -1 end) (snd (qrun_r true exq_c exq_x exq_es)) =
+  [40; 8; 8; 9].
+Proof. exact suq_example. Qed.
 
 Example C16_example :
   delivered nat (abp_run nat (abp_init nat [1; 2; 3]%nat)
